@@ -87,9 +87,13 @@ Section WithEnv.
                 if negb ok1 then Ok (el1, os1, false)
                 else
                   '(st1, secs1, os2) <- save_sections (e_enc h) h (el_xlat el1) (el_stream el1) [] (el_secs el1) os1 ;;
-                  let os3 := save_segments (e_enc h) h (el_segs el1) os2 in
-                  if os_abort os3 then Fault Abort     (* uncaught std::length_error / std::bad_alloc *)
-                  else Ok (with_stream (with_secs el1 secs1) st1, os3, true)
+                  let el2 := with_stream (with_secs el1 secs1) st1 in
+                  if os_abort os2 then Fault Abort     (* uncaught std::length_error / std::bad_alloc *)
+                  else if os_bad os2 then Ok (el2, os2, false)      (* save_sections returns stream.good() (C16 fix) *)
+                  else
+                    let os3 := save_segments (e_enc h) h (el_segs el1) os2 in
+                    if os_abort os3 then Fault Abort
+                    else Ok (el2, os3, negb (os_bad os3))           (* save_segments returns stream.good() *)
             end
       end.
 End WithEnv.
